@@ -128,6 +128,16 @@ CLAIMS = {
         "Trusted: rustc / driver / engine; tokio::sync::Mutex guard semantics; DataFusion resolves table names at planning time.",
         "static analysis: guard-span liveness (must), MIR edge dominance, call-graph who-may-call with closure containment",
         "DESIGN.md §3 C10"),
+    "C16": (
+        "R1 CachedObjectStore::get keys the cache by `location` alone and its miss closure fetches that same captured location; in get_or_fetch every L1/L2 get and "
+        "insert uses the key parameter, a value is inserted only if it is the successfully fetched content (dominated by the fetch's success edge) or the L2 "
+        "entry of the same key; R2 each of 13 other ObjectStore methods hands its own arguments to the backing store's method of the same name, delete/rename "
+        "invalidate the affected key first; R3 the cached path of get_opts is dominated, for EVERY field of object_store::GetOptions (table read from the "
+        "type-checked ADT, so a new field alarms), by the edge on which that field is absent/false, and the bypass forwards location and options unchanged. "
+        "Not decided: eviction / promotion inside moka and foyer, coalescing of concurrent misses, byte equality.",
+        "Trusted: rustc / driver / engine; moka and foyer return what was inserted under a key; chunk objects are write-once (stated in the property).",
+        "static analysis: value provenance, MIR edge dominance, sibling agreement over the trait's methods, ADT field table",
+        "DESIGN.md §3 C16"),
 }
 
 NOT_YET = "rule set under construction in this round; see DESIGN.md §3 for the planned static rules"
